@@ -16,11 +16,11 @@ cd $WT
 DEMOFILE=$(find . -name 'zz_seed_demo*_test.go' -not -path './_seed/*' | head -1)
 PKG=$(dirname $DEMOFILE)
 echo "== demo with patch ($DEMOFILE)" >> $LOG
-go1.26.8 test -vet=off -count=1 -run 'SeedDemo' $PKG > $D/demo_with.log 2>&1; WITH=$?
+go1.26.8 test -vet=off -count=1 -run 'TestSeed' $PKG > $D/demo_with.log 2>&1; WITH=$?
 # (never git stash here: worktrees share one stash stack with the agents still running)
 git apply -R $D/patch.diff >> $LOG 2>&1
 echo "== demo without patch" >> $LOG
-go1.26.8 test -vet=off -count=1 -run 'SeedDemo' $PKG > $D/demo_without.log 2>&1; WITHOUT=$?
+go1.26.8 test -vet=off -count=1 -run 'TestSeed' $PKG > $D/demo_without.log 2>&1; WITHOUT=$?
 git apply $D/patch.diff >> $LOG 2>&1
 tail -5 $D/demo_with.log >> $LOG; tail -3 $D/demo_without.log >> $LOG
 echo "demo_with_patch_exit=$WITH demo_without_patch_exit=$WITHOUT" | tee -a $LOG
